@@ -520,6 +520,16 @@ theorem pres_cancelFound (st : St) (a : Nat) (w : Watch) (l : List Nat) (hl : l 
     ((((grow_cancelNotify _ a w).trans (grow_cancelHook _ w.type w.evi)).trans (grow_free _ a)).trans
       (grow_cancelRest _ _)).pres
 
+theorem grow_cancelDetached (st : St) (a : Nat) : Grow st (cancelDetached st a) := by
+  unfold cancelDetached
+  exact (grow_cancelNotify st a _).trans (grow_setW _ a _ rfl)
+
+theorem grow_laterPre (st : St) (a : Nat) : Grow st (laterPre st a) := by
+  unfold laterPre
+  split
+  · exact grow_setW _ a _ rfl
+  · exact Grow.refl _
+
 theorem pres_watchCancel (st : St) (a : Nat) : Pres st (watchCancel st a) := by
   unfold watchCancel
   split
@@ -531,7 +541,9 @@ theorem pres_watchCancel (st : St) (a : Nat) : Pres st (watchCancel st a) := by
       · split
         · exact (grow_fail st _).pres
         · split
-          · exact Pres.refl st
+          · split
+            · exact (grow_cancelDetached st a).pres
+            · exact Pres.refl st
           · exact pres_cancelFound st a _ _ rfl
 
 theorem grow_with_slots (st : St) (l : List SlotRec) : Grow st { st with slots := l } := Grow.of_eq rfl rfl
@@ -991,32 +1003,34 @@ theorem pres_laterLoopT (l : List Nat) : ∀ st : St, Pres st (laterLoopT st l).
     · split
       · exact (grow_fail _ _).pres
       · split
-        · exact pres_laterCb _ _
+        · exact (grow_free _ a).pres.trans (ih _)
         · split
-          · exact (pres_laterCb _ _).trans (grow_fail _ _).pres
-          · exact ((pres_laterCb _ _).trans (grow_free _ a).pres).trans (ih _)
+          · exact (grow_laterPre st a).pres.trans (pres_laterCb _ a)
+          · split
+            · exact ((grow_laterPre st a).pres.trans (pres_laterCb _ a)).trans (grow_fail _ _).pres
+            · exact (((grow_laterPre st a).pres.trans (pres_laterCb _ a)).trans (grow_free _ a).pres).trans (ih _)
 
 theorem pres_laterLoop (l : List Nat) (st : St) : Pres st (laterLoop st l) := pres_laterLoopT l st
 
-/-- The batch of deferred callbacks that was queued when the iteration began: when the loop returns
-    normally it has invoked every one of them, exactly once, in queue order. -/
-theorem laterLoopT_all (l : List Nat) : ∀ st : St, (laterLoopT st l).1.status = .ok → (laterLoopT st l).2 = l := by
+/-- The batch of deferred callbacks that was queued when the iteration began: the loop invokes its members at
+    most once each, in queue order (either variant of the source). -/
+theorem laterLoopT_sub (l : List Nat) : ∀ st : St, (laterLoopT st l).2.Sublist l := by
   induction l with
-  | nil => intro st _; rfl
+  | nil => intro st; exact List.Sublist.refl _
   | cons a rest ih =>
     intro st
     unfold laterLoopT
     split
-    · rename_i h; intro hok; exact St.not_ok_absurd h hok
+    · exact List.nil_sublist _
     · split
-      · intro hok; exact absurd hok (St.status_fail_ne _ _)
+      · exact List.nil_sublist _
       · split
-        · rename_i h; intro hok; exact St.not_ok_absurd h hok
+        · exact (ih _).cons _
         · split
-          · intro hok; exact absurd hok (St.status_fail_ne _ _)
-          · intro hok
-            show a :: (laterLoopT ((laterCb st a).free a) rest).2 = a :: rest
-            rw [ih _ hok]
+          · exact List.Sublist.cons_cons _ (List.nil_sublist _)
+          · split
+            · exact List.Sublist.cons_cons _ (List.nil_sublist _)
+            · exact List.Sublist.cons_cons _ (ih _)
 
 /-- The loop as shipped. -/
 theorem pres_timerLoopT (fuel : Nat) : ∀ (st : St) (now : TV) (this : Option Nat), Pres st (timerLoopT fuel st now this).1 := by
